@@ -301,11 +301,31 @@ func (e *Extractor) Tables(f *types.Func) []*Table {
 		switch x := n.(type) {
 		case *ast.IfStmt:
 			// len guards
-			if b, k, eq, ok := lenGuard(info, x.Cond, baseOf); ok {
+			if b, k, eq, ok := lenGuard(info, x.Cond, baseOf, defs); ok {
 				for i := 0; i < 2; i++ {
 					if bases[b][i].Guard < 0 || k > bases[b][i].Guard {
 						bases[b][i].Guard = k
 						bases[b][i].GuardEq = eq
+					}
+				}
+			}
+		case *ast.SwitchStmt:
+			// the if-chain written as a tagless switch: every case condition is a guard like an if condition
+			if x.Tag == nil {
+				for _, cl := range x.Body.List {
+					cc, ok := cl.(*ast.CaseClause)
+					if !ok {
+						continue
+					}
+					for _, cond := range cc.List {
+						if b, k, eq, ok := lenGuard(info, cond, baseOf, defs); ok {
+							for i := 0; i < 2; i++ {
+								if bases[b][i].Guard < 0 || k > bases[b][i].Guard {
+									bases[b][i].Guard = k
+									bases[b][i].GuardEq = eq
+								}
+							}
+						}
 					}
 				}
 			}
@@ -757,27 +777,61 @@ func fieldExpr(x ast.Expr) string {
 	return "?"
 }
 
-// lenGuard recognises `len(b) < K`, `len(b) != K`, `len(b) <= K` (K+1).
-func lenGuard(info *types.Info, cond ast.Expr, baseOf func(ast.Expr) types.Object) (types.Object, int64, bool, bool) {
+// lenGuard recognises `len(b) < K`, `len(b) != K`, `len(b) <= K` (K+1); the left side may also be len(b) − C or
+// len(b) + C, or a local defined once as one of these (the constant moves to the other side).
+func lenGuard(info *types.Info, cond ast.Expr, baseOf func(ast.Expr) types.Object, defs map[types.Object]ast.Expr) (types.Object, int64, bool, bool) {
 	be, ok := ast.Unparen(cond).(*ast.BinaryExpr)
 	if !ok {
 		return nil, 0, false, false
 	}
-	call, ok := ast.Unparen(be.X).(*ast.CallExpr)
-	if !ok || len(call.Args) != 1 {
-		return nil, 0, false, false
+	var lenOf func(x ast.Expr, depth int) (types.Object, int64, bool)
+	lenOf = func(x ast.Expr, depth int) (types.Object, int64, bool) {
+		x = ast.Unparen(x)
+		switch v := x.(type) {
+		case *ast.CallExpr:
+			if len(v.Args) != 1 {
+				return nil, 0, false
+			}
+			if id, ok := v.Fun.(*ast.Ident); !ok || id.Name != "len" || info.Uses[id] != types.Universe.Lookup("len") {
+				return nil, 0, false
+			}
+			if b := baseOf(v.Args[0]); b != nil {
+				return b, 0, true
+			}
+		case *ast.BinaryExpr:
+			if v.Op != token.SUB && v.Op != token.ADD {
+				return nil, 0, false
+			}
+			b, off, ok := lenOf(v.X, depth)
+			c, okc := constInt(info, v.Y)
+			if !ok || !okc {
+				return nil, 0, false
+			}
+			if v.Op == token.SUB {
+				c = -c
+			}
+			return b, off + c, true
+		case *ast.Ident:
+			if depth > 2 || defs == nil {
+				return nil, 0, false
+			}
+			if obj := info.Uses[v]; obj != nil {
+				if rhs, ok := defs[obj]; ok {
+					return lenOf(rhs, depth+1)
+				}
+			}
+		}
+		return nil, 0, false
 	}
-	if id, ok := call.Fun.(*ast.Ident); !ok || id.Name != "len" {
-		return nil, 0, false, false
-	}
-	b := baseOf(call.Args[0])
-	if b == nil {
+	b, off, ok := lenOf(be.X, 0)
+	if !ok {
 		return nil, 0, false, false
 	}
 	k, ok := constInt(info, be.Y)
 	if !ok {
 		return nil, 0, false, false
 	}
+	k -= off // len(b)+off OP k  ⇔  len(b) OP k−off
 	switch be.Op {
 	case token.LSS:
 		return b, k, false, true
